@@ -337,8 +337,8 @@ def model_cells(tier):
     for fam, theta, fpv, tg, d in itertools.product(EXACT_FAMS + VAR_FAMS, [0, 1, 2, 3], [False, True], TEST_GEOMS, [1, 2]):
         if fam in VAR_FAMS and d != 1:
             continue  # the variational catalogue is 1-d
-        if fam in EXACT_FAMS and theta > 1:
-            continue  # theta 2 / 3 = confident / vague q(u), variational families only
+        if fam in EXACT_FAMS and theta > 2:
+            continue  # theta 3 = vague q(u), variational families only
         if tier == "quick" and d == 2 and theta == 1:
             continue
         out.append({"what": "model-cov", "fam": fam, "theta": theta, "fast_pred_var": fpv, "geometry": tg, "d": d})
@@ -389,6 +389,16 @@ def build_model(fam, theta, seed, d):
     m = models.ExactModel(X, y, fam, seed)
     if theta:
         models.perturb_(m, seed, f"c07|{fam}|{theta}")
+    if theta == 2:
+        # confident posterior: noise 1e-3, so that the posterior covariance near training points is a small difference of
+        # prior-sized quantities (cond(K + s I) ~ 1e4: rounding ~ 1e-12 of the prior)
+        lik = m.likelihood
+        if fam == "fixednoise":
+            lik.noise = torch.full((X.shape[0],), 1e-3, dtype=F64)
+        else:
+            lik.noise = 1e-3
+        if fam == "multitask":
+            lik.task_noise_covar_factor.data.mul_(0.03)
     return m, X
 
 
@@ -400,8 +410,10 @@ def prior_of(m, fam, Xs):
         return m(Xs)
 
 
-def lik_kwargs(fam, n):
+def lik_kwargs(fam, n, theta=0):
     if fam == "fixednoise":
+        if theta == 2:
+            return {"noise": torch.full((n,), 1e-3, dtype=F64)}
         return {"noise": 0.05 + 0.1 * torch.arange(n, dtype=F64) / max(n, 1)}
     return {}
 
@@ -448,7 +460,7 @@ def run_model(cell, seed, fails, feats):
             with fails.guard("marginal"):
                 with settings.fast_pred_var(fpv):
                     torch.manual_seed(util.seed_for(seed, "c07|lanczos"))
-                    mar = lik(m(Xs), **lik_kwargs(fam, Xs.shape[0]))
+                    mar = lik(m(Xs), **lik_kwargs(fam, Xs.shape[0], theta))
                     Cm = mar.covariance_matrix
                 ops += 1
                 check_cov(fails, "marginal", Cm, tol, scale=prior_scale, detail="likelihood(model(Xs)).covariance_matrix")
@@ -498,11 +510,11 @@ LATTICE_KERNELS = ["RBF", "Matern1.5", "Sum", "Prod"]
 
 def lattice_cells(tier):
     out = []
-    for kern, noise, pool, ls, d in itertools.product(LATTICE_KERNELS, [0.1, 1e-2, 1.0], ["generic", "dup", "cluster1e-3", "collinear"],
-                                                      [1.0, 0.2], [1, 2]):
-        if tier == "quick" and d == 2 and ls != 1.0:
+    for kern, noise, pool, ls, d, fpv in itertools.product(LATTICE_KERNELS, [0.1, 1e-2, 1.0], ["generic", "dup", "cluster1e-3", "collinear"],
+                                                           [1.0, 0.2], [1, 2], [False, True]):
+        if tier == "quick" and (d == 2 and ls != 1.0 or fpv and (ls != 1.0 or noise == 1.0)):
             continue
-        out.append({"what": "subset-lattice", "kernel": kern, "noise": noise, "geometry": pool, "ls": ls, "d": d})
+        out.append({"what": "subset-lattice", "kernel": kern, "noise": noise, "geometry": pool, "ls": ls, "d": d, "fast_pred_var": fpv})
     return out
 
 
@@ -544,7 +556,8 @@ def lattice_model(X, y, kern, noise, ls, d):
 
 
 def run_lattice(cell, seed, fails, feats):
-    kern, noise, pool, ls, d = (cell[k] for k in ("kernel", "noise", "geometry", "ls", "d"))
+    kern, noise, pool, ls, d, fpv = (cell[k] for k in ("kernel", "noise", "geometry", "ls", "d", "fast_pred_var"))
+    ptol = PSD_TOL_ITER if fpv else PSD_TOL        # fast_pred_var: Lanczos root of (K + s I)^-1, an iterative path
     g = util.gen(seed, f"c07|lattice|{d}")
     P = geometry(g, pool, 4, d)                      # the pool of 4 candidate training points
     yP = util.randn(g, 4)
@@ -559,9 +572,9 @@ def run_lattice(cell, seed, fails, feats):
                     m = lattice_model(P[idx], yP[idx], kern, noise, ls, d)
                 else:
                     m = lattice_model(None, None, kern, noise, ls, d)   # the empty set = the prior
-                dist = m(T)
-                with warnings.catch_warnings():
-                    warnings.simplefilter("ignore")
+                with settings.fast_pred_var(fpv):
+                    torch.manual_seed(util.seed_for(seed, "c07|lanczos"))
+                    dist = m(T)
                     post[mask] = (dist.covariance_matrix.clone(), dist.variance.clone())
                 ops += 1
         if len(post) < 16:
@@ -574,10 +587,13 @@ def run_lattice(cell, seed, fails, feats):
             for mask in range(1, 16):
                 idx = [i for i in range(4) if mask >> i & 1]
                 m.set_train_data(P[idx], yP[idx], strict=False)
-                dist = m(T)
+                with settings.fast_pred_var(fpv):
+                    torch.manual_seed(util.seed_for(seed, "c07|lanczos"))
+                    dist = m(T)
+                    Cs = dist.covariance_matrix
                 ops += 1
-                e = util.maxerr(dist.covariance_matrix, post[mask][0])
-                if e > 1e-9 * max(1.0, lam0):
+                e = util.maxerr(Cs, post[mask][0])
+                if e > (1e-6 if fpv else 1e-9) * max(1.0, lam0):
                     fails.add("lattice-set-train-data", f"set_train_data posterior covariance differs from a fresh model err={e:.3e}",
                               f"subset={idx}")
                     break
@@ -588,14 +604,14 @@ def run_lattice(cell, seed, fails, feats):
             if cnt[sub] <= 2:
                 fails.add(sub, sym, detail)
 
-        vtol = 1e-10 * max(1.0, float(v0.max()))
+        vtol = (1e-6 if fpv else 1e-10) * max(1.0, float(v0.max()))
         for mask in range(16):
             idx = [i for i in range(4) if mask >> i & 1]
             C, v = post[mask]
-            ok, sym, st = cov_verdict(C, PSD_TOL, scale=lam0)
+            ok, sym, st = cov_verdict(C, ptol, scale=lam0)
             if not ok:
                 add("lattice-posterior", sym, f"subset={idx} pool={P.tolist()}")
-            ok, sym, st = cov_verdict(C0 - C, PSD_TOL, scale=lam0)
+            ok, sym, st = cov_verdict(C0 - C, ptol, scale=lam0)
             if not ok:
                 add("lattice-prior-minus-posterior", "prior - posterior not PSD: " + sym, f"subset={idx} pool={P.tolist()} test={T.tolist()}")
             for i in range(4):
